@@ -37,7 +37,7 @@ ChoosePairBr == /\ phase = "start" /\ kind' = "pairbr"
                 /\ style' = "min" /\ wop' = "" /\ wlit' = 0 /\ phase' = "done"
 ChooseWhere == /\ phase = "start" /\ kind' = "where"
                /\ \E e \in One \cup Negs : exprs' = <<e>>
-               /\ wop' \in {"gt", "eq", "lte"} /\ wlit' \in {0, 5, 14, 24} /\ style' = "min" /\ phase' = "done"
+               /\ wop' \in {"gt", "eq", "lte"} /\ wlit' \in {0, 5, 14, 24, 0 - 5, 0 - 14} /\ style' = "min" /\ phase' = "done"
 Lists == { << <<"+", "size", "1">>, <<"-", "size", "1">>, <<"*", "size", "2">>, <<"neg", "size">>, <<"+", "*", "2", "3", "4">> >>,
            << <<"+", "*", "2", "3", "4">>, <<"neg", "size">>, <<"*", "size", "2">>, <<"-", "size", "1">>, <<"+", "size", "1">> >>,
            << <<"*", "+", "2", "3", "4">>, <<"+", "2", "*", "3", "4">>, <<"%", "size", "5">>, <<"/", "size", "1">>, <<"size">> >> }
